@@ -15,6 +15,7 @@ import Driver.Ops.Cfg
 import Driver.Ops.Group
 import Driver.Ops.Fdef
 import Driver.Ops.ReportText
+import Driver.Ops.Priced
 /-! Line-protocol driver of the model: one JSON case per input line, one JSON answer per line.
     To add an op: write `Driver/Ops/<Name>.lean`, import it here, add one line to `opTable`
     (or to `outputTable` for a new output kind of op `run`). -/
@@ -23,14 +24,14 @@ open Lean Tackler Codec
 /-- output kinds of op `run` -/
 def outputTable : List (String × Ops.OutputFn) := [
   ("txns", Ops.outTxns),
-  ("balance", Ops.outBalance),
-  ("register", Ops.outRegister),
+  ("balance", Ops.outBalanceP),       -- = outBalance unless the case has a `price` block
+  ("register", Ops.outRegisterP),
   ("register_all", Ops.outRegisterAll),
   ("equity", Ops.outEquity),
   ("selects", Ops.outSelects),
   ("baltxt", Ops.outBalanceTxt),
   ("probe", Ops.outProbe),
-  ("balgrp", Ops.outBalGrp),
+  ("balgrp", Ops.outBalGrpP),
   ("identity", Ops.outIdentity),
   ("roundtrip", Ops.outRoundtrip),
   ("regtxt", Ops.outRegisterTxt),
